@@ -35,7 +35,7 @@ ASSUMPTIONS = [
     "msdparser.parse_msd is the trusted tokenizer (also for which text is stray)",
     "files are read in text mode with universal newlines, so file entry points are compared with the newline-translated text",
 ]
-FILE_NAMES = ["x.sm", "x.ssc", "x.SM", "x.Ssc", "x.txt", "x.sm.bak", "x.ssc.old", "noext", "sm", "a.ssc.sm"]
+FILE_NAMES = ["x.sm", "x.ssc", "x.SM", "x.Ssc", "x.txt", "x.sm.bak", "x.ssc.old", "noext", "sm", "a.ssc.sm", ".sm", ".ssc", ".SSC", "a.sm.ssc", "x.ssc ", "x.smx"]
 
 
 def need(c, msg):
